@@ -93,7 +93,21 @@ Vector Vector::Cross(const Vector& rhs) const
 
 double Vector::Norm() const
 {
-	return sqrt(Dot(*this));
+	// Sum the squares of the components scaled by a power of two (exact), so that they neither overflow nor underflow.
+	double largest = 0.0;
+	for(unsigned int i = 0; i < dimension; i++)
+		largest = std::max(largest, std::fabs(components[i]));
+	if(largest == 0.0 || std::isinf(largest))
+		return largest;
+	int exponent;
+	std::frexp(largest, &exponent);
+	double sum = 0.0;
+	for(unsigned int i = 0; i < dimension; i++)
+	{
+		double component = std::ldexp(components[i], -exponent);
+		sum += component * component;
+	}
+	return std::ldexp(sqrt(sum), exponent);
 }
 
 void Vector::Normalize()
